@@ -56,6 +56,8 @@ MIN = {'quick': {'distinct': 20000,
                             'category EMPTY read with gf_split': 30,
                             'gzip file with two members': 30,
                             'file longer than 24 000 characters': 8,
+                            'file longer than 2**20 characters, a token '
+                            'across character 2**20': 2,
                             'word starting with # or %%': 60,
                             'gf_separator differs from the labels': 30,
                             'word with non-ASCII space character': 30,
@@ -388,6 +390,22 @@ def run_case(ctx, case, probe_obj=None):
                                      secedges=eo.get('secedges', False),
                                      omit_optional=eo.get('omit_optional', False),
                                      encoding=case.get('encoding', 'utf-8'))
+    if case.get('huge') and fmt in ('brackets', 'discobrackets'):
+        # the file is longer than 2**20 characters (the same sentences over
+        # and over, one per line), and it begins with as many blanks as it
+        # takes for character 2**20 to fall inside a token: however the
+        # reader cuts its input into blocks, tokens are not cut
+        rep = (1 << 20) * 21 // 20 // max(1, len(text)) + 1
+        text = text * rep
+        bank = bank * rep
+        for k_ in range(2000):
+            p_ = (1 << 20) - k_
+            if text[p_ - 2:p_ + 2].isalnum():
+                text = ' ' * k_ + text
+                break
+        assert text[(1 << 20) - 2:(1 << 20) + 2].isalnum()
+        ctx.stratum('file longer than 2**20 characters, a token across '
+                    'character 2**20')
     enc = case.get('encoding', 'utf-8')
     path = ctx.path('.' + fmt + ('.gz' if case.get('gz') else ''))
     try:
@@ -991,6 +1009,16 @@ def shard(ctx):
                         'file options': case['enc_opts'],
                         'first tree': model.show(model.from_spec(
                             case['bank'][0]['root']), 'w')}, 4)
+    for i in ctx.indices(ctx.pick(2, 16)):
+        # very large bracket files (one per format in the quick tier)
+        rng = ctx.rng('huge', i)
+        fmt = ('brackets', 'discobrackets')[i % 2]
+        case = {'fmt': fmt, 'enc_opts': {'layout': 'line'},
+                'opts': {'quiet': True}, 'sep': '-', 'layout_seed': 0,
+                'huge': True, 'big': True,
+                'bank': make_bank(rng, fmt, False, '-', quick, unispace=False,
+                                  big=True)}
+        run_case(ctx, case, None)
     for i in ctx.indices(ctx.pick(300, 30000)):
         cross_format(ctx, ctx.rng('cross', i))
     for i in ctx.indices(ctx.pick(300, 20000)):
